@@ -59,6 +59,33 @@ NEXT = C.Kind("pretty_next_run", impl=_impl,
               nontrivial=_nt)
 
 
+def _impl_remade(a):
+    """the text a SwitcherSchedule OBJECT displays when it is a re-made copy of another schedule (dataclasses.replace with another
+    start and other days, copy, pickle): it is the text of ITS start and days"""
+    import copy
+    import dataclasses
+    import pickle
+    from aioswitcher.schedule import Days
+    from aioswitcher.schedule.parser import SwitcherSchedule
+    zone, now, start, days = a[:4]
+    D = list(Days)
+
+    def f():
+        try:
+            first = SwitcherSchedule("3", True, {D[(i + 3) % 7] for i in days} or {D[0]}, "%02d:%02d" % ((int(start[:2]) + 7) % 24, 5), "23:59")
+            made = dataclasses.replace(first, start_time=start, days={D[i] for i in days}, schedule_id="4")
+            made = pickle.loads(pickle.dumps(copy.deepcopy(copy.copy(made))))
+            return "ok " + C.ut(made.display)
+        except Exception as e:  # noqa
+            return "raise " + C.exc_name(e)
+    return Z.under(zone, now, f)
+
+
+REMADE = C.Kind("display-of-a-re-made-schedule-object", impl=_impl_remade,
+                model=lambda a: f"pretty {Z.zone_token(a[0], a[1])} {int(a[1] // 1)} {C.ut(a[2])} {','.join(map(str, a[3])) or '-'}",
+                judge=_judge, classify=lambda a, o: (C.un_ut(o[3:]).split(" at ")[0] if o.startswith("ok ") else o)[:16], nontrivial=_nt)
+
+
 def _impl_nodays(a):
     """the days argument left out altogether (its default): "today" """
     from aioswitcher.schedule import tools
@@ -93,7 +120,7 @@ LISTED = C.Kind("listed-display", impl=_c10.LIST.impl, model=_c10.LIST.model,
                 judge=lambda a, o: [j for j in _c10.LIST.judge(a, o) if j[0].startswith("c13 ")],
                 compare=lambda m, i: _displays_only(m) == _displays_only(i),
                 classify=_c10.LIST.classify, nontrivial=lambda a, o: (a["zone"], int(a["now"] // 3600), o[:40]), shrink=_c10.LIST.shrink)
-KINDS = {"pretty_next_run": NEXT, "pretty_next_run-without-days": NODAYS, "listed-display": LISTED}
+KINDS = {"display-of-a-re-made-schedule-object": REMADE, "pretty_next_run": NEXT, "pretty_next_run-without-days": NODAYS, "listed-display": LISTED}
 
 
 def _cases(rng, full):
@@ -176,6 +203,8 @@ def streams(ctx):
     ctx.run_cases(NODAYS, "days-argument-left-out", nod, exhaustive=False, sample_every=max(1, len(nod) // 2))
     ctx.run_cases(LISTED, "listed-again-after-the-caller-changed-day-sets", polled[: len(polled) // 2], exhaustive=False)
     ctx.run_cases(NODAYS, "days-argument-left-out-again", nod[: len(nod) // 2], exhaustive=False)
+    ctx.run_cases(REMADE, "schedule-objects-re-made-by-replace-copy-and-pickle", rng.sample(dst, min(len(dst), ctx.n(300, 3000))), exhaustive=False,
+                  sample_every=149)
     bad = [("UTC", 1.75e9, s, [0]) for s in ("7:5", "24:00", "x", "", "12:60", "1200")]
     ctx.run_cases(NEXT, "malformed-start", bad, exhaustive=False)
 
